@@ -6,3 +6,6 @@ import Modbus.Props.C08Crc
 #print axioms Modbus.C08Crc.crc_detects_single
 #print axioms Modbus.C08Crc.crc_detects_double_dist
 #print axioms Modbus.C08Crc.crc_detects_double
+#print axioms Modbus.C08Crc.crc_detects_single_flip
+#print axioms Modbus.C08Crc.crc_detects_double_flip
+#print axioms Modbus.C08Crc.crc_detects
